@@ -18,6 +18,10 @@ TRUST_E = [
 ]
 S_WIDEST_FLOORS = {"consumers": 420, "risky": 420}
 
+S_FLAG_TEXT = ("S-flag (error discipline over the crate's MIR): no call of an overflowing_* function discards its "
+               "flag, except the reviewed wrapping_ forms of tables/flag_drops.json -- a necessary condition for every "
+               "overflow verdict assembled from those flags.")
+
 TRUST_A = [
     "rustc 1.95 + LLVM do not delete a feasible panic (same trust as any user of the compiled crate)",
     "the IR reader finds every call (positive/negative control roots are checked in every crate on every run)",
@@ -103,7 +107,10 @@ def _pol_base(p, bases, families=("E-pol", "E-sat", "E-del")):
 
 def check_C02(rep, tier):
     a = run_a.run(rep, tier, ["inh", "ops", "trait"], _is_arith, "C02-arith")
-    e = run_e.run(rep, tier, ["pol", "del"], "C02-agree", select=lambda p: _pol_base(p, ARITH_BASES))
+    e = run_e.run(rep, tier, ["pol", "del", "div", "alg"], "C02-agree",
+                  select=lambda p: _pol_base(p, ARITH_BASES) or p.family in ("E-alg", "E-mul")
+                  or p.cls in ("E-div|overflowing_div", "E-div|wrapping_div"))
+    sf = engine_s.s_flag(rep, "C02", "C02")
     cov = _explain(
         "Engine E decides that the forms agree with each other for every operand: checked_X is Some/None of the "
         "(value, flag) of overflowing_X (None also for a zero divisor), wrapping_X is its value, the unsigned and the "
@@ -113,7 +120,9 @@ def check_C02(rep, tier):
         "neg, abs, add, sub, mul, div, mul_int, div_int can reach a panic (non-zero divisor precondition encoded in the "
         "root), and that the plain operators can only reach their documented overflow / zero-divisor panics, never an "
         "internal helper precondition. Not decided: that the shared (value, flag) is the exact result for mul/div "
-        "(see C01), saturation sides that do not normalise.", [a, e])
+        "(see C01), saturation sides that do not normalise. The shared (value, flag) of multiplication and division "
+        "is itself decided against the exact result where C01 decides it (double-width specifications for 8..64 bits, "
+        "the limb algebra for the 128-bit product). " + S_FLAG_TEXT, [a, e, sf])
     return "other", cov, TRUST_A + TRUST_E
 
 
@@ -121,6 +130,7 @@ def check_C07(rep, tier):
     a = run_a.run(rep, tier, ["inh", "ops", "trait"], _is_rem, "C07-rem")
     e = run_e.run(rep, tier, ["rem", "pol", "del"], "C07-rem",
                   select=lambda p: p.family == "E-rem" or _pol_base(p, REM_BASES))
+    sf = engine_s.s_flag(rep, "C07", "C07")
     cov = _explain(
         "Engine E: `%`/checked_rem and rem_euclid/checked_rem_euclid with a fixed divisor are the bit-level "
         "wrapping_rem / wrapping_rem_euclid of the primitive integer (which is a - b*trunc(a/b) resp. the Euclidean "
@@ -128,8 +138,8 @@ def check_C07(rep, tier):
         "checked_/wrapping_ forms agree with overflowing_ ones. " +
         "Engine A: no checked/saturating/wrapping/overflowing remainder or Euclidean form (fixed or integer divisor) "
         "reaches a panic for a non-zero divisor; the plain forms reach only the documented zero-divisor / overflow panics. "
-        "Not decided: the values of div_euclid* and of the integer-divisor forms.",
-        [a, e])
+        "Not decided: the values of div_euclid* and of the integer-divisor forms. " + S_FLAG_TEXT,
+        [a, e, sf])
     return "other", cov, TRUST_A + TRUST_E
 
 
@@ -139,6 +149,7 @@ def check_C06(rep, tier):
                   select=lambda p: (p.family == "E-mask" and not p.cls.endswith(("is_negative", "is_positive")))
                   or _pol_base(p, ROUND_BASES)
                   or (p.family == "E-wrap" and p.cls.split("|", 1)[1] in ROUND_BASES))
+    sf = engine_s.s_flag(rep, "C06", "C06")
     cov = _explain(
         "Engine E on all 506 layouts: int, frac, floor, ceil, round, round_ties_to_even, round_to_zero equal their "
         "definitional specifications over the bits (floor = bits & -2^f; the others as case analyses over floor and "
@@ -148,27 +159,31 @@ def check_C06(rep, tier):
         "of the Fixed trait and of Wrapping<F> are the inherent (wrapping) ones. " +
         "Engine A: the checked/saturating/wrapping/overflowing rounding forms, int, frac and round_to_zero are "
         "panic-free for every value (including 0 and 1 integer bits); ceil/floor/round reach only their documented "
-        "debug overflow panic. Not decided: layouts listed as exceptions in the registry.", [a, e])
+        "debug overflow panic. Not decided: layouts listed as exceptions in the registry. " + S_FLAG_TEXT, [a, e, sf])
     return "other", cov, TRUST_A + TRUST_E
 
 
 def check_C08(rep, tier):
     a = run_a.run(rep, tier, ["parse"], lambda m: m["group"] == "parse", "C08-parse")
+    sf = engine_s.s_flag(rep, "C08", "C08")
     cov = _explain(
         "Engine A on from_str, from_str_{binary,octal,hex} and their saturating_/wrapping_/overflowing_ forms with an "
         "unconstrained &str: the only panic-capable constructs reachable are the table entries, each argued infeasible "
         "(digit validity from parse_bounds, slice bounds, 10^DEC ranges). Only the clause 'no input makes the parser "
-        "panic' is decided; rounding of literals is numeric and not decided.", [a])
+        "panic' is decided; rounding of literals is numeric and not decided. " + S_FLAG_TEXT +
+        " For the parser this covers the carries of the digit accumulation (a dropped flag makes an out-of-range "
+        "literal parse as in range).", [a, sf])
     return "other", cov, TRUST_A
 
 
 def check_C09(rep, tier):
     a = run_a.run(rep, tier, ["fmt"], lambda m: m["group"] == "fmt", "C09-fmt")
+    sf = engine_s.s_flag(rep, "C09", "C09")
     cov = _explain(
         "Engine A on Display/Debug/Binary/Octal/LowerHex/UpperHex::fmt with an unconstrained &mut Formatter (width, "
         "precision, fill, flags symbolic): only table entries (buffer index arithmetic, argued from int_digits + "
         "frac_digits <= 128 and frac_digits <= precision) are reachable. Only the clause 'no value or flag combination "
-        "panics' is decided; digit correctness and round-tripping are numeric and not decided.", [a])
+        "panics' is decided; digit correctness and round-tripping are numeric and not decided. " + S_FLAG_TEXT, [a, sf])
     return "other", cov, TRUST_A + ["Formatter::precision()/width() are at most 65535 on this toolchain (stored as u16)",
                                     "writes into the Formatter's sink go through indirect calls and are outside the analysis"]
 
@@ -192,12 +207,16 @@ def check_C03(rep, tier):
 
 def check_C04(rep, tier):
     def sel(m):
+        if m["group"] == "from":          # infallible From / LossyFrom impls between fixed types and integers
+            ex = m.get("extra") or {}
+            return not ({ex.get("src"), ex.get("dst")} & {"f32", "f64"})
         return m["group"] == "conv" and m.get("targ") not in ("f32", "f64")
     a = run_a.run(rep, tier, ["conv"], sel, "C04-conv")
     t = engine_t.run(rep, tier, "C04")
     sw = engine_s.s_widest(rep, "C04", floors=S_WIDEST_FLOORS)
     e = run_e.run(rep, tier, ["conv", "pol"], "C04-conv",
                   select=lambda p: p.family == "E-conv" or _pol_base(p, {"from_num", "to_num"}, ("E-pol",)))
+    sf = engine_s.s_flag(rep, "C04", "C04")
     cov = _explain(
         "Engine T: From / LossyFrom impls exist for no (source, destination) pair at which the conversion could "
         "overflow or (From) lose bits, for all fixed x fixed pairs probed and every primitive in both directions. "
@@ -212,7 +231,7 @@ def check_C04(rep, tier):
         "Engine A: checked_/saturating_/wrapping_/overflowing_ from_num/to_num between fixed layouts and primitive "
         "integers/bool never panic; from_num/to_num reach only the documented debug overflow assertion. Not decided: "
         "the overflow flag at the pairs listed as exceptions in the registry (signed sources whose leading-bit count "
-        "LLVM does not fold into a range test), pairs away from the boundary set.", [t, e, sw, a])
+        "LLVM does not fold into a range test), pairs away from the boundary set. " + S_FLAG_TEXT, [t, e, sw, a, sf])
     return "other", cov, TRUST_A + TRUST_E + ["the arithmetic availability specification in tools/vf/engine_t.py (from_is_safe / lossy_is_safe)"]
 
 
@@ -257,15 +276,18 @@ def check_C01(rep, tier):
     def sel(m):
         return m["group"] in ("arith", "ops", "trait") and m.get("base") in ("mul", "div")
     a = run_a.run(rep, tier, ["inh", "ops", "trait"], sel, "C01-muldiv")
-    e = run_e.run(rep, tier, ["div", "pol"], "C01-div",
-                  select=lambda p: p.family in ("E-div", "E-mul") or _pol_base(p, {"mul", "div"}, ("E-pol",)))
+    e = run_e.run(rep, tier, ["div", "pol", "alg"], "C01-div",
+                  select=lambda p: p.family in ("E-div", "E-mul", "E-alg") or _pol_base(p, {"mul", "div"}, ("E-pol",)))
     cov = _explain(
-        "Engine E, 8..64-bit families: wrapping_div (and overflowing_div with its flag where it normalises) equals "
-        "trunc((a * 2^F) / b) computed in the double-width integer, where it is exact; wrapping_mul/overflowing_mul "
-        "equal (a * b) >> F in the double-width integer at the layouts where the pair normalises; checked_mul/"
-        "checked_div are tied to the overflowing forms. Engine A: no multiplication or division form can panic apart "
-        "from the documented cases. Not decided: multiplication at most layouts, everything at 128 bits "
-        "(four-limb product, 256/128 long division).", [e, a])
+        "Engine E, 8..64-bit families: wrapping_div and overflowing_div (value and flag) equal trunc((a * 2^F) / b) "
+        "computed in the double-width integer, where it is exact; wrapping_mul / overflowing_mul (value and flag) equal "
+        "(a * b) >> F and its range test in the double-width integer (term normal form with exact products and bit "
+        "slices); checked_mul / checked_div are tied to the overflowing forms. 128-bit families: the four-limb "
+        "schoolbook product with its carries and the limb recombination are rewritten into polynomials over the "
+        "operands (tools/vf/engine_e3.py, limb algebra) and equal the bit slice [F, F+128) of the exact 256-bit product, "
+        "with the overflow flag equal to the exact range test, for every operand pair at every layout with F >= 1 "
+        "where the rewriting succeeds. Engine A: no multiplication or division form can panic apart from the "
+        "documented cases. Not decided: the 256/128-bit long division of the 128-bit quotient (wide_div).", [e, a])
     return "other", cov, TRUST_A + TRUST_E
 
 
